@@ -63,7 +63,13 @@ pub fn judge(case: &Value, variant: usize) -> Option<Value> {
                 (Ok(Tok::EndOfInput), "eof") => {}
                 (Ok(Tok::Whitespace(_)), "ws") | (Ok(Tok::Word(_)), "word") | (Ok(Tok::Comment(_)), "comment") => {
                     if sub != exp_text { why.push(format!("token {} text {:?}, expected {:?}", k, sub, exp_text)); }
-                    if let Ok(Tok::Word(w)) = &got { if w.as_str() != exp_text { why.push(format!("word {:?} expected {:?}", w.as_str(), exp_text)); } }
+                    // the text carried by the token itself (what a consumer of Tok sees), not only last_substr()
+                    match &got {
+                        Ok(Tok::Word(w)) => { if w.as_str() != exp_text { why.push(format!("word {:?} expected {:?}", w.as_str(), exp_text)); } }
+                        Ok(Tok::Whitespace(w)) => { if w.as_str() != exp_text { why.push(format!("whitespace token carries {:?}, its text is {:?}", w.as_str(), exp_text)); } }
+                        Ok(Tok::Comment(w)) => { if w.as_str() != exp_text { why.push(format!("comment token carries {:?}, its text is {:?}", w.as_str(), exp_text)); } }
+                        _ => {}
+                    }
                 }
                 (Ok(Tok::Literal(c)), "str") => {
                     if sub != exp_text { why.push(format!("token {} text {:?}, expected {:?}", k, sub, exp_text)); }
@@ -233,6 +239,13 @@ pub fn cmd_fuzz(args: &[String]) -> i32 {
                 let r = sub.range();
                 match got {
                     Ok(Tok::EndOfInput) => { ended = "eof"; break; }
+                    // for tokens that carry their own text, the span is what the token carries
+                    Ok(Tok::Word(w)) | Ok(Tok::Whitespace(w)) | Ok(Tok::Comment(w)) => {
+                        let pr = w.range();
+                        let same = pr.start == r.start && pr.end == r.end;
+                        spans.push(json!([pr.start, pr.end]));
+                        pos = if same { r.end } else { pr.end };
+                    }
                     Ok(_) => { spans.push(json!([r.start, r.end])); pos = r.end; }
                     Err(_) => { ended = "error"; break; }
                 }
